@@ -66,6 +66,7 @@ Inductive edit : Type :=
 | EBranchTrunc (p n : nat)               (* branch p: keys truncated to n, children to n+1 *)
 | EBranchPopChild (p : nat)
 | EBranchDupChild (p : nat)
+| EBranchPush (p : nat) (k : key)        (* branch p: keys.push(k); children.push(last child) *)
 | EBranchRef (p i : nat) (id : N)        (* branch p: children[i] := same kind, raw id *)
 | ERoot (leafkind : bool) (id : N)       (* root := Leaf(id) | Branch(id) *)
 | ELeafNext (p : nat) (t : target)       (* set_leaf_next *)
@@ -106,6 +107,9 @@ Definition apply_edit (h : heap) (e : edit) : heap :=
   | EBranchPopChild p => on_branch h p (fun b => mkBranch (bcap b) (bkeys b) (removelast (bkids b)))
   | EBranchDupChild p =>
       on_branch h p (fun b => mkBranch (bcap b) (bkeys b)
+                                (bkids b ++ match last_opt (bkids b) with Some c => [c] | None => [] end))
+  | EBranchPush p k =>
+      on_branch h p (fun b => mkBranch (bcap b) (bkeys b ++ [k])
                                 (bkids b ++ match last_opt (bkids b) with Some c => [c] | None => [] end))
   | EBranchRef p i id =>
       on_branch h p (fun b => match nth_error (bkids b) i with
